@@ -186,13 +186,11 @@ impl Voter {
         let Inner { flags, .. } = &**inner;
         if voted.get() {
             if *inverse < TWO_VOTERS_LIM {
-                if flags
-                    .compare_exchange(*flag, INIT, Ordering::Relaxed, Ordering::Relaxed)
-                    .is_err()
-                {
-                    VoteResult::Unanimous
-                } else {
-                    VoteResult::UnanimityPending
+                match flags.compare_exchange(*flag, INIT, Ordering::Relaxed, Ordering::Relaxed) {
+                    // The exchange also fails if this voter has no outstanding vote (it was
+                    // already rescinded); that is only unanimity if both flags are set.
+                    Err(current) if current == inverse | flag => VoteResult::Unanimous,
+                    _ => VoteResult::UnanimityPending,
                 }
             } else {
                 loop {
